@@ -297,8 +297,9 @@ func generate(family string, rng *rand.Rand, thorough bool) []plan {
 			stages = append(stages,
 				&Stage{Kind: "join", N: 2},
 				&Stage{Kind: "join", N: []int{0, 1, 3}[rng.Intn(3)]}, // also no input at all: the output closes at once
-				&Stage{Kind: "unfold", N: rng.Intn(3), Seed: rng.Intn(3), A: 2, B: 1},
-				&Stage{Kind: "emit", N: rng.Intn(3), Freq: []int{0, 1, 3, 10}[rng.Intn(4)], A: 1, B: 0}, // also no pause at all
+				// every capacity in turn (0 first: a generator's very first send already needs the consumer)
+				&Stage{Kind: "unfold", N: rep % 3, Seed: rng.Intn(3), A: 2, B: 1},
+				&Stage{Kind: "emit", N: (rep + 1) % 3, Freq: []int{0, 1, 3, 10}[rng.Intn(4)], A: 1, B: 0}, // also no pause at all
 				&Stage{Kind: "throttle", Ops: rng.Intn(3) + 1, Freq: rng.Intn(5) + 2},
 				&Stage{Kind: "map", A: 1, B: 1, Fail: &Fail{Kind: "modeq", M: 3, R: 1}, Try: rng.Intn(2) == 0},
 				&Stage{Kind: "fmap", M: 3, Fail: &Fail{Kind: "modeq", M: 4, R: 1}, Try: rng.Intn(2) == 0},
@@ -657,6 +658,49 @@ func generate(family string, rng *rand.Rand, thorough bool) []plan {
 				add(plan{stage: s, icaps: icaps, inputs: inputs, sched: rnd(4, 1, 3, 0, 0, 0, nil), maxMoves: 50, drain: true, gen: "random"})
 				add(plan{stage: s, icaps: icaps, inputs: inputs, sched: &random{rng: rng, wSend: 4, wClose: 1, wRecv: 3, closeEarly: true}, maxMoves: 50, drain: true, gen: "random-early-close"})
 			}
+		}
+		for rep := 0; rep < 4*mul; rep++ {
+			// a producer far ahead of the consumer: everything one input can take is sent before anything is received,
+			// then the consumer takes it all - nothing lost, nothing invented, per-input order kept
+			n := 1 + rep%2
+			icaps := make([]int, n)
+			inputs := make([][]int, n)
+			var sc []intent
+			for i := range icaps {
+				icaps[i] = rng.Intn(4)
+				inputs[i] = make([]int, 8+rng.Intn(8))
+				for j := range inputs[i] {
+					inputs[i][j] = 100*i + j + 1
+				}
+			}
+			for j := 0; j < 16; j++ {
+				for i := 0; i < n; i++ {
+					sc = append(sc, intent{kind: "send", i: i})
+				}
+			}
+			for j := 0; j < 6; j++ {
+				sc = append(sc, intent{kind: "recv", k: 0})
+			}
+			add(plan{stage: &Stage{Kind: "join", N: n}, icaps: icaps, inputs: inputs, sched: &scripted{script: sc}, maxMoves: 60, drain: true, gen: "producer-ahead"})
+			// very many inputs (any number of them): all but one end at once, the output stays open for the one
+			// that is left, delivers what it sends and closes with it
+			wide := []int{17, 18, 24, 40}[rep%4]
+			wcaps := make([]int, wide)
+			winputs := make([][]int, wide)
+			open := rng.Intn(wide)
+			winputs[open] = []int{100 * open, 100*open + 1, 100*open + 2} // the oracle reads the input of a value off its hundreds
+			var wsc []intent
+			for _, i := range rng.Perm(wide) {
+				if i != open {
+					wsc = append(wsc, intent{kind: "close", i: i})
+				}
+			}
+			wsc = append(wsc, intent{kind: "recv", k: 0})
+			for j := 0; j < 3; j++ {
+				wsc = append(wsc, intent{kind: "send", i: open}, intent{kind: "recv", k: 0})
+			}
+			wsc = append(wsc, intent{kind: "recv", k: 0}, intent{kind: "close", i: open}, intent{kind: "recv", k: 0})
+			add(plan{stage: &Stage{Kind: "join", N: wide}, icaps: wcaps, inputs: winputs, sched: &scripted{script: wsc}, maxMoves: 80, drain: true, gen: "many-inputs"})
 		}
 	case "C13":
 		for rep := 0; rep < 50*mul; rep++ {
